@@ -34,7 +34,8 @@ REF = {
 def run(repo: Repo, chk: Check) -> None:
     chk.scope_decides = (
         "O1 for the 7 CMS classes and ProtectionDescriptor the ordered TLV shape written by pack equals the shape read by unpack (type, tag "
-        "class/number, constructed bit, optional markers, nesting, field correspondence) and no decoded field is altered after it was read; "
+        "class/number, constructed bit, optional markers, nesting, field correspondence), no decoded field is altered after it was read, no "
+        "element is read and thrown away, and an optional element is read under presence tests only (reader non-empty / tag of the peeked header); "
         "the binary KeyIdentifier table agrees with its reader and the reference; O2 the constants emitted = the constants validated = the "
         "RFC 5652/5084 + Windows reference (versions 2 and 4, one KEK recipient [2], content types, key attribute OID, AES256 wrap/GCM OIDs, GCM "
         "parameters SEQUENCE{OCTET STRING nonce, INTEGER 16}); O3 DER discipline of the TLV writer (definite minimal lengths, identifier forms) "
